@@ -78,6 +78,86 @@ pub fn type_name<T>() -> &'static str { core::any::type_name::<T>() }
 //@| ensures b == !self.tracker.value.currently_reacting,
 //@endimpl
 
+
+// ---- event payload readers (C03, C04), generic in the payload type ----------------------------------------------------------
+// BroadcastEvent / EntityEvent::try_read yield the payload stored on THE data entity of the current event reaction iff the event
+// tracker is reacting and that entity carries a payload of the reader's type; SystemEvent::take hands the payload out at most
+// once (the second take in the same run finds None => Err) and never outside a system-event run.
+pub struct QueryEntityError;
+pub trait QData { type Item; }
+impl<X: 'static> QData for &'static X { type Item = X; }
+impl<X: 'static> QData for &'static mut X { type Item = X; }
+#[verifier::external_body]
+#[verifier::accept_recursive_types(D)]
+pub struct Query<'w, 's, D: QData> { _p: PhantomData<(&'w (), &'s (), D)> }
+pub type Mut<'a, T> = &'a mut T;
+impl<'w, 's, D: QData> Query<'w, 's, D> {
+    /// the components of type D::Item, per entity
+    pub uninterp spec fn items(&self) -> Map<Entity, D::Item>;
+    #[verifier::external_body]
+    pub fn get(&self, e: Entity) -> (r: Result<&D::Item, QueryEntityError>)
+        ensures r is Ok <==> self.items().dom().contains(e), r is Ok ==> *r->Ok_0 == self.items()[e] { unimplemented!() }
+    #[verifier::external_body]
+    pub fn get_mut(&mut self, e: Entity) -> (r: Result<Mut<'_, D::Item>, QueryEntityError>)
+        ensures r is Ok <==> old(self).items().dom().contains(e),
+                r is Ok ==> (*r->Ok_0 == old(self).items()[e] && final(self).items() == old(self).items().insert(e, *final(r->Ok_0))),
+                r is Err ==> final(self).items() == old(self).items() { unimplemented!() }
+}
+//@struct src/react/event_readers.rs EventAccessTracker
+//@impl src/react/event_readers.rs impl EventAccessTracker
+//@fn src/react/event_readers.rs impl EventAccessTracker is_reacting ret=r
+//@| ensures r == self.currently_reacting,
+//@fn src/react/event_readers.rs impl EventAccessTracker data_entity ret=r
+//@| ensures r == self.data_entity,
+//@endimpl
+//@struct src/react/event_readers.rs BroadcastEventData
+//@impl src/react/event_readers.rs impl BroadcastEventData
+//@fn src/react/event_readers.rs impl BroadcastEventData read ret=r
+//@| ensures *r == self.data,
+//@endimpl
+//@struct src/react/event_readers.rs EntityEventData
+//@impl src/react/event_readers.rs impl EntityEventData
+//@fn src/react/event_readers.rs impl EntityEventData read ret=r
+//@| ensures r.0 == self.entity, *r.1 == self.data,
+//@endimpl
+//@struct src/react/event_readers.rs BroadcastEvent
+//@impl src/react/event_readers.rs impl BroadcastEvent
+//@fn src/react/event_readers.rs impl BroadcastEvent try_read ret=r
+//@| ensures r is Ok <==> (self.tracker.value.currently_reacting && self.data.items().dom().contains(self.tracker.value.data_entity)),
+//@|         r is Ok ==> *r->Ok_0 == self.data.items()[self.tracker.value.data_entity].data,
+//@fn src/react/event_readers.rs impl BroadcastEvent is_empty ret=b
+//@| ensures b == !(self.tracker.value.currently_reacting && self.data.items().dom().contains(self.tracker.value.data_entity)),
+//@endimpl
+//@struct src/react/event_readers.rs EntityEvent
+//@impl src/react/event_readers.rs impl EntityEvent
+//@fn src/react/event_readers.rs impl EntityEvent try_read ret=r
+//@| ensures r is Ok <==> (self.tracker.value.currently_reacting && self.data.items().dom().contains(self.tracker.value.data_entity)),
+//@|         r is Ok ==> (r->Ok_0.0 == self.data.items()[self.tracker.value.data_entity].entity && *r->Ok_0.1 == self.data.items()[self.tracker.value.data_entity].data),
+//@fn src/react/event_readers.rs impl EntityEvent is_empty ret=b
+//@| ensures b == !(self.tracker.value.currently_reacting && self.data.items().dom().contains(self.tracker.value.data_entity)),
+//@endimpl
+//@struct src/react/system_event_reader.rs SystemEventAccessTracker
+//@impl src/react/system_event_reader.rs impl SystemEventAccessTracker
+//@fn src/react/system_event_reader.rs impl SystemEventAccessTracker is_reacting ret=r
+//@| ensures r == self.currently_reacting,
+//@fn src/react/system_event_reader.rs impl SystemEventAccessTracker data_entity ret=r
+//@| ensures r == self.data_entity,
+//@endimpl
+//@struct src/react/system_event_reader.rs SystemEventData
+//@impl src/react/system_event_reader.rs impl SystemEventData
+//@fn src/react/system_event_reader.rs impl SystemEventData take ret=r
+//@| ensures r == old(self).data, final(self).data is None,
+//@endimpl
+//@struct src/react/system_event_reader.rs SystemEvent
+//@impl src/react/system_event_reader.rs impl SystemEvent
+//@fn src/react/system_event_reader.rs impl SystemEvent take ret=r
+//@| ensures ({ let e = old(self).tracker.value.data_entity; let present = old(self).tracker.value.currently_reacting && old(self).data.items().dom().contains(e);
+//@|     &&& (r is Ok <==> (present && old(self).data.items()[e].data is Some))
+//@|     &&& (r is Ok ==> r->Ok_0 == old(self).data.items()[e].data->Some_0)
+//@|     &&& (present ==> final(self).data.items() == old(self).data.items().insert(e, SystemEventData { data: None }))
+//@|     &&& (!present ==> final(self).data.items() == old(self).data.items()) }),
+//@endimpl
+
 // C03 glue: at most ONE of the three readers of a given component type answers, and none answers outside a reaction.
 pub fn check_readers_exclusive<T: ReactComponent>(i: &InsertionEvent<T>, m: &MutationEvent<T>, r: &RemovalEvent<T>)
     requires i.tracker.value == m.tracker.value, m.tracker.value == r.tracker.value,
